@@ -1,4 +1,5 @@
 import Pyxv.Proofs.ValidatorLemmas
+import Pyxv.Proofs.ValidatorLines
 /-!
 # C18 — validator verdicts are honoured and failures leave no residue
 
@@ -291,6 +292,43 @@ theorem itemsets_beside (raw : Args) (inDir inName : Str) (out : Option (Str × 
   · rw [jsonReport_fs, hx]; exact hread
   · rw [plainReport_ok_fs _ _ _ cr.warnings (by rw [hx]), hx]; exact hread
 
+/-- the temp-file write inside `print_xform_to_file` fails: disk fault (OSError) or unencodable text -/
+def writeFailure (form : Form) (e : Exc) : Prop :=
+  (∃ m, form = .diskFault m ∧ e = .osError m) ∨ (∃ m, form = .unencodable m ∧ e = .encode m)
+
+theorem convert_writeFailure (form : Form) (e : Exc) (t : Nat) (v p : Bool) (env : Env) (fs : FS)
+    (h : writeFailure form e) :
+    (convert form t v p env fs).res = .error e ∧ (convert form t v p env fs).seen = [] := by
+  rcases h with ⟨m, rfl, rfl⟩ | ⟨m, rfl, rfl⟩ <;> simp [convert, toXml, printXformToFile]
+
+/-- **write_failure_cli** — crash point "writing the XForm text to the temporary file fails" (the `except` branch
+of `print_xform_to_file`), library and command line, for every flag combination, validator environment, output path
+and initial file system: the validator is never started, the file system afterwards equals the one before (no
+temp file, no output, no itemsets), `--json` reports 999 with the error text; plain mode logs an OSError as
+"EnvironmentError" and lets any other exception propagate. -/
+theorem write_failure_cli (raw : Args) (inDir inName : Str) (out : Option (Str × Str)) (form : Form) (e : Exc) (t : Nat)
+    (env : Env) (fs : FS) (h : writeFailure form e) (he : (validatorArgsLogic raw).enketoValidate = false)
+    (hfresh : FS.read fs (.tmp t) = none) :
+    (libCall raw form t env fs).res = .error e ∧ (libCall raw form t env fs).fs = fs ∧
+    ∃ r, mainCli raw inDir inName out form t env fs = some r ∧ r.fs = fs ∧ r.seen = [] ∧
+      ((validatorArgsLogic raw).json = true → r.json = some ⟨codeFail, e.msg, []⟩ ∧ r.raised = none ∧ r.logs = []) ∧
+      ((validatorArgsLogic raw).json = false → r.json = none ∧
+        (∀ m, e = .osError m → r.raised = none ∧ r.logs = [.exception (plainLogFor "OSError") "OSError"]) ∧
+        (∀ m, e = .encode m → r.raised = some e ∧ r.logs = [])) := by
+  have hc := convert_writeFailure form e t (validatorArgsLogic raw).odkValidate (validatorArgsLogic raw).prettyPrint env fs h
+  have hl := no_temp_survives_lib form t (validatorArgsLogic raw).odkValidate (validatorArgsLogic raw).prettyPrint env fs hfresh
+  refine ⟨hc.1, hl, _, mainCli_some raw inDir inName out form t env fs he, ?_, ?_, ?_, ?_⟩
+  · by_cases hj : (validatorArgsLogic raw).json = true
+    · simp [hj, jsonReport_fs, xls2xformConvert, hc.1, hl]
+    · rcases h with ⟨m, rfl, rfl⟩ | ⟨m, rfl, rfl⟩ <;> simp [hj, plainReport, xls2xformConvert, hc.1, hl]
+  · by_cases hj : (validatorArgsLogic raw).json = true
+    · simp [hj, jsonReport, xls2xformConvert, hc.1, hc.2]
+    · rcases h with ⟨m, rfl, rfl⟩ | ⟨m, rfl, rfl⟩ <;> simp [hj, plainReport, xls2xformConvert, hc.1, hc.2]
+  · intro hj
+    simp [hj, jsonReport, xls2xformConvert, hc.1]
+  · intro hj
+    rcases h with ⟨m, rfl, rfl⟩ | ⟨m, rfl, rfl⟩ <;> simp [hj, plainReport, xls2xformConvert, hc.1, Exc.cls]
+
 /-! ## `_validator_args_logic` -/
 
 /-- **args_logic_table** — the eight rows (stored `skip_validate`, `--odk_validate`, `--enketo_validate`) ↦
@@ -403,6 +441,82 @@ theorem cleaner_paths_to_refs (pre post : Str) (segs : List Str)
   rw [htoks, renderToks_chain _ _ _ ha hp]
   rfl
 
+/-! ## the cleaner, end to end -/
+
+/-- `\n` separates paths; the characters the rewriting introduces are not line boundaries (table facts) -/
+theorem nl_delim : isDelim '\n' = true := by decide +kernel
+
+/-- the line does not end inside a path: it ends with a delimiter character followed by segment characters only
+(a word, or nothing), and its very last character is not blank -/
+def EndsClean (l : Str) : Prop :=
+  ∃ y d r e, l = y ++ d :: r ∧ isDelim d = true ∧ (∀ c ∈ r, isSeg c = true) ∧
+    (d :: r).getLast? = some e ∧ pyIsSpace e = false
+
+/-- **cleaner_end_to_end** — `ErrorCleaner.odk_validate` works line by line.  For every diagnostic given as lines
+(joined by `\n`; no line contains a line boundary; the first line starts with a non-blank character other than `/`;
+the last line `EndsClean`; not the launcher's jarfile message): the final message is the `\n`-join of the lines,
+each rewritten by the path substitution *on its own*, neighbouring duplicates dropped, stack lines dropped and
+exception names deleted.  Together with `cleaner_paths_to_refs` (applied to any line) and `cleaner_no_java_noise`
+this is the statement about the final message: `strip`, `splitlines` and `join` neither merge, split nor lose lines. -/
+theorem cleaner_end_to_end (ls : List Str) (hne : ls ≠ [])
+    (hlb : ∀ l ∈ ls, ∀ c ∈ l, isLineBreak c = false)
+    (hhead : ∃ c r rest, ls = (c :: r) :: rest ∧ pyIsSpace c = false ∧ c ≠ '/')
+    (hlast : EndsClean (ls.getLast hne))
+    (hjar : isInfix jarfilePhrase (joinWith ['\n'] ls) = false) :
+    odkValidate (joinWith ['\n'] ls) = joinWith ['\n'] ((dedupAdj (ls.map subPaths)).filterMap removeJava) := by
+  have hsub : subPaths (joinWith ['\n'] ls) = joinWith ['\n'] (ls.map subPaths) := subPaths_join '\n' nl_delim ls
+  have hms_ne : ls.map subPaths ≠ [] := by simpa using hne
+  -- the last rewritten line
+  obtain ⟨y, d, r, e, hl, hd, hr, hge, he⟩ := hlast
+  obtain ⟨z, hz⟩ : ∃ z, d :: r = z ++ [e] := by
+    rw [List.getLast?_eq_some_iff] at hge
+    exact hge
+  have hlastm : (ls.map subPaths).getLast hms_ne = (subPaths y ++ z) ++ [e] := by
+    rw [List.getLast_map, hl, subPaths_split y r d hd, subPaths_allSeg r hr, hz]
+    simp [List.append_assoc]
+  obtain ⟨pre, hpre⟩ := joinWith_last ['\n'] (ls.map subPaths) hms_ne
+  -- the first rewritten line
+  obtain ⟨c, r0, rest, hls, hc, hc2⟩ := hhead
+  obtain ⟨r1, hr1⟩ := subPaths_head c r0 hc2
+  obtain ⟨r2, hr2⟩ := joinWith_head ['\n'] c r1 (rest.map subPaths)
+  have hhd : joinWith ['\n'] (ls.map subPaths) = c :: r2 := by
+    rw [hls, List.map_cons, hr1, hr2]
+  have hstrip : strip (joinWith ['\n'] (ls.map subPaths)) = joinWith ['\n'] (ls.map subPaths) :=
+    strip_id _ c e r2 (pre ++ (subPaths y ++ z)) hhd (by rw [hpre, hlastm]; simp [List.append_assoc]) hc he
+  have hnb : ∀ m ∈ ls.map subPaths, ∀ x ∈ m, isLineBreak x = false := by
+    intro m hm x hx
+    simp only [List.mem_map] at hm
+    obtain ⟨l, hl', rfl⟩ := hm
+    have hall : l.all (fun c => !isLineBreak c) = true := by
+      simp only [List.all_eq_true, Bool.not_eq_true']
+      exact hlb l hl'
+    have := subPaths_all (fun c => !isLineBreak c) (by decide) (by decide) (by decide) (by decide) l hall
+    simp only [List.all_eq_true, Bool.not_eq_true'] at this
+    exact this x hx
+  have hsplit : splitlines (joinWith ['\n'] (ls.map subPaths)) = ls.map subPaths :=
+    splitlines_join _ hms_ne hnb (by rw [hlastm]; simp)
+  simp [odkValidate, hjar, cleanLines, cleanupErrors, hsub, hstrip, hsplit]
+
+/-- **cleaner_end_to_end_path** — the two-line shape of real ODK Validate output, with the cited node rewritten:
+a diagnostic whose first line contains a delimited path (as in `cleaner_paths_to_refs`) is reported with `${sn}`
+in its place, whatever follows on the other lines. -/
+theorem cleaner_end_to_end_path (pre post : Str) (segs : List Str) (more : List Str) (hne : (pre ++ chainText segs ++ post) :: more ≠ [])
+    (hpre : pre = [] ∨ ∃ p c, pre = p ++ [c] ∧ isSeg c = false)
+    (hpost : post = [] ∨ ∃ c r, post = c :: r ∧ isSeg c = false ∧ c ≠ '/')
+    (hsegs : ∀ s ∈ segs, s ≠ [] ∧ ∀ c ∈ s, isSeg c = true) (hlen : 2 ≤ segs.length)
+    (hkeep : keepMatch (chainText segs) = false)
+    (hlb : ∀ l ∈ (pre ++ chainText segs ++ post) :: more, ∀ c ∈ l, isLineBreak c = false)
+    (hhead : ∃ c r, pre ++ chainText segs ++ post = c :: r ∧ pyIsSpace c = false ∧ c ≠ '/')
+    (hlast : EndsClean (((pre ++ chainText segs ++ post) :: more).getLast hne))
+    (hjar : isInfix jarfilePhrase (joinWith ['\n'] ((pre ++ chainText segs ++ post) :: more)) = false) :
+    odkValidate (joinWith ['\n'] ((pre ++ chainText segs ++ post) :: more)) =
+      joinWith ['\n'] ((dedupAdj ((subPaths pre ++ ('$' :: '{' :: (segs.getLastD []) ++ ['}']) ++ subPaths post)
+        :: more.map subPaths)).filterMap removeJava) := by
+  obtain ⟨c, r, h1, h2, h3⟩ := hhead
+  have h := cleaner_end_to_end _ hne hlb ⟨c, r, more, by rw [h1], h2, h3⟩ hlast hjar
+  obtain ⟨hsp, hrep, _⟩ := cleaner_paths_to_refs pre post segs hpre hpost hsegs hlen
+  rw [h, List.map_cons, hsp, hrep hkeep]
+
 /-! ## non-vacuity -/
 
 def exForm : Form := .ok "<x/>".toList "<x>\n</x>".toList (some "a,b".toList) ["w1".toList] []
@@ -435,10 +549,19 @@ example : (mainCli { json := true, skipValidate := false } "in".toList "form.md"
 example : ((convert exForm 7 true false (.ran ⟨-9, false, []⟩) exFs).fs, (convert (.late []) 7 true false .javaAbsent exFs).fs,
     (convert (.unencodable []) 7 true false .javaAbsent exFs).fs, (convert exForm 7 true false .javaAbsent exFs).fs)
     = (exFs, exFs, exFs, exFs) := by decide +kernel
+/-- write failure on concrete data: plain CLI, pre-existing output kept, OSError logged -/
+example : writeFailure (.diskFault "No space".toList) (.osError "No space".toList) := .inl ⟨_, rfl, rfl⟩
+example : (mainCli {} "in".toList "form.md".toList (some ("out".toList, "form.xml".toList)) (.diskFault "No space".toList) 7 exReject exFs).map
+    (fun r => (r.fs, r.raised, r.logs.length, r.seen)) = some (exFs, none, 1, []) := by decide +kernel
 /-- cleaner on concrete data -/
 example : odkValidate "x /data/g/q1 y\nx /data/g/q1 y\n\tat a.B(B.java:1)\n/html/body/input".toList
     = "x ${q1} y\n/html/body/input".toList := by decide +kernel
 example : cleanupErrors "a\na\nb\na".toList = ["a".toList, "b".toList, "a".toList] := by decide +kernel
+/-- `EndsClean` and the end-to-end statement on concrete data (a word at the end; a full stop at the end) -/
+example : EndsClean "Result: Invalid".toList := ⟨"Result:".toList, ' ', "Invalid".toList, 'd', rfl, by decide +kernel, by decide +kernel, rfl, by decide⟩
+example : EndsClean "broke.".toList := ⟨"broke".toList, '.', [], '.', rfl, by decide +kernel, by simp, rfl, by decide⟩
+example : odkValidate (joinWith ['\n'] ["Error in [/data/g/first-name] now".toList, "\tat a.B(B.java:1)".toList, "Result: Invalid".toList])
+    = "Error in [${first-name}] now\nResult: Invalid".toList := by decide +kernel
 /-- the hypotheses of `cleaner_paths_to_refs` on concrete data -/
 example : subPaths ("see [".toList ++ chainText ["data".toList, "g".toList, "q1".toList] ++ "] now".toList)
     = "see [${q1}] now".toList := by decide +kernel
